@@ -92,6 +92,7 @@ SUP_FORMS = [
     ('mistakes', 'l', {'x': 3}),
     (None, 'L', None),
     (None, 'L', {'x': 2}),
+    (None, 'L', {'x': 1}),
     (None, 'absent', None),
     ('parser', True, None),
     ('INSTRUCTOR', True, None),
@@ -105,9 +106,11 @@ def _sup_sets(max_size):
     for i, a in enumerate(SUP_FORMS):
         out.append([a])
     if max_size >= 2:
-        for i, a in enumerate(SUP_FORMS):
-            for b in SUP_FORMS[i + 1:]:
-                out.append([a, b])
+        # ordered pairs: two suppressions of the same label/category in either order
+        for a in SUP_FORMS:
+            for b in SUP_FORMS:
+                if a is not b:
+                    out.append([a, b])
     return out
 
 
